@@ -480,6 +480,7 @@ type Contracts struct {
 	FieldInv map[string]bool // "pkg.Type.field": the field is never nil in an allocated object
 	ArrayInv map[string]bool // array heap key suffix (element type): elements are never nil
 	MapInv   map[string]bool // "pkg|map type": values are never nil
+	MapFrame map[string][]string // "pkg|map type": the only functions that may write maps of that type they did not allocate
 }
 
 func newContracts() *Contracts {
@@ -594,11 +595,17 @@ func (c *Contracts) loadFile(path string, pkgName string) error {
 			if cur == nil || !strings.HasPrefix(rest, "\"") {
 				return fmt.Errorf("%s:%d: at \"call text\" label: expr", path, j.line)
 			}
-			q := strings.Index(rest[1:], "\"")
+			q := -1
+			for i := 1; i < len(rest); i++ {
+				if rest[i] == '"' && rest[i-1] != '\\' {
+					q = i - 1
+					break
+				}
+			}
 			if q < 0 {
 				return fmt.Errorf("%s:%d: unterminated call text", path, j.line)
 			}
-			key := strings.Join(strings.Fields(rest[1:1+q]), "")
+			key := strings.Join(strings.Fields(strings.ReplaceAll(rest[1:1+q], "\\\"", "\"")), "")
 			cl, err := mkClause(strings.TrimSpace(rest[q+2:]), j.line)
 			if err != nil {
 				return err
@@ -774,6 +781,24 @@ func (c *Contracts) loadFile(path string, pkgName string) error {
 				return fmt.Errorf("%s:%d: ghost Type field sort", path, j.line)
 			}
 			c.Ghosts = append(c.Ghosts, &GhostField{f[0], f[1], f[2]})
+			cur = nil
+		case "mapframe":
+			// mapframe <map type> only <func key>, <func key>...: every other function writes such a map only if it
+			// allocated the map itself (frame obligation at every map update)
+			i := strings.Index(rest, " only ")
+			if i < 0 {
+				return fmt.Errorf("%s:%d: mapframe <map type> only <func>, ...", path, j.line)
+			}
+			var fs []string
+			for _, x := range strings.Split(rest[i+6:], ",") {
+				if x = strings.TrimSpace(x); x != "" {
+					fs = append(fs, x)
+				}
+			}
+			if c.MapFrame == nil {
+				c.MapFrame = map[string][]string{}
+			}
+			c.MapFrame[pkgName+"|"+strings.TrimSpace(rest[:i])] = fs
 			cur = nil
 		case "mapinv":
 			f := strings.Fields(rest)
